@@ -9,6 +9,7 @@ package main
 //                                                    aspects a (variant v) carrying the runner's
 //                                                    expectation headers for e, served by a fresh handler
 //   render  : {e, a, v, name}                     -> that request itself (ties the Go renderer to Lean's)
+//   real    : see c12real.go                      -> the real server createServer builds, over real connections
 //
 // Feedback messages are mapped to a small enum of classes by anchored regular expressions.
 
@@ -627,6 +628,8 @@ func runC12(c *gen.Ctx) error {
 		c.Do("checks", c12ChecksIn{Reqs: reqs})
 		c.E.Count("kind:checks-sequence")
 	}
+	// (iii) the real reference server as createServer builds it (c12real.go)
+	c12RealGen(c)
 	return nil
 }
 
